@@ -65,8 +65,8 @@ theorem C11_n_le_len {α : Type} (content : List α) (n : Nat) : (ReadLoop.readC
   by_cases h0 : n = 0
   · simp [h0]
   · by_cases hl : content.length < n
-    · simp [h0, hl]; omega
-    · simp [h0, hl]; omega
+    · simp [h0, hl] <;> omega
+    · simp [h0, hl] <;> omega
 
 /-- `decoderDict.writeMatch` at the level of the ring array and its indices (Model/Ring.lean, tied to the real
     type by operation scripts): for every reachable ring state, every distance and length the outcome is one of
